@@ -182,6 +182,16 @@ class RoundTrip(UperBase):
         if h == "str":
             if node[1] == "num":
                 return "(str " + "".join("%02x" % (0x30 + (i * 7 + i // 11) % 10) for i in range(n)) + ")"
+            if node[1] == "utf8":
+                # n OCTETS: ASCII with multi-octet characters in between (every alignment class)
+                out, i = bytearray(), 0
+                while len(out) < n:
+                    ch = ["A", "\u00e9", "b", "\u20ac", "C", "\U0001f600", "d"][(i * 3 + i // 7) % 7].encode("utf-8")
+                    if len(out) + len(ch) > n:
+                        ch = b"z"
+                    out += ch
+                    i += 1
+                return "(str " + out.hex() + ")"
             return "(str " + "".join("%02x" % (0x41 + (i * 7 + i // 11) % 26) for i in range(n)) + ")"
         if h == "oct":
             return "(oct " + "".join("%02x" % ((i * 37 + i // 256) % 256) for i in range(n)) + ")"
@@ -744,7 +754,22 @@ class Hostile(UperBase):
                 nb = rng.range(0, 96)
                 bits = "".join(format(x, "08b") for x in rng.bytes(12))[:nb]
                 reqs.append(f"uper dec {n} {self.desc[n]} {bits or '-'}")
-            reqs.append(f"uper dec {n} {self.desc[n]} {crafted[rng.below(len(crafted))]}")
+            for c in crafted + ["1" * 63, "1" * 64, "1" * 65, "1" * 127, "1" * 200, "0" + "1" * 70, "01" + "1" * 70, "0" * 200]:
+                reqs.append(f"uper dec {n} {self.desc[n]} {c}")
+        # valid encodings of long UTF8String values with multi-octet characters at every alignment
+        texts = ["\u20ac" * 86, "a" * 255 + "\u00df", "a\u00e9\u20ac\U0001f600" * 80, "\u00e9" * 200, "b" * 254 + "\u20ac" * 3,
+                 "c" * 253 + "\U0001f600" * 2, "\u00e9" + "d" * 300]
+        long_reqs = []
+        for n in self.names:
+            nodes = ty_nodes(self.desc[n])
+            if len(nodes) == 2 and nodes[1][0] == "str" and nodes[1][1] == "utf8" and (opt(nodes[1][3]) is None or opt(nodes[1][3]) >= 400) \
+                    and (opt(nodes[1][2]) or 0) <= 80:
+                for t in texts:
+                    long_reqs.append((n, f"uper enc {n} {self.desc[n]} (seq (str {t.encode('utf-8').hex()}))"))
+        for (n, _), e in zip(long_reqs, vlib.run_lines(self.h, [r for _, r in long_reqs])):
+            if e.startswith("ok ") and e[3:] != "-":
+                reqs.append(f"uper dec {n} {self.desc[n]} {e[3:]}")
+                reqs.append(f"uper dec {n} {self.desc[n]} {e[3:-9]}")
         return reqs
 
     def oracle(self, req, ans):
